@@ -24,3 +24,19 @@ KERNELS = [
     K("src_chunk_inline_end", F, CH + r".*?for \(tsize begin.*?op\(begin, (.*?), 0U\);",
       [], [("begin", "Z"), ("chunksize", "Z"), ("elements", "Z")], "parallel", ["C17", "C09"]),
 ]
+
+# ---- extension: the decisions of the worker loop and of ~pool_t (src/core/parallel.cpp), own group so that
+# Src_parallel.v (shared with C09) stays as it is.  Pinned by theorem C17_worker_loop_decisions: the model's locked
+# worker step sleeps / exits / pops exactly as these translated tests say.
+S = "src/core/parallel.cpp"
+QA = [(r"m_queue\.m_stop", "stop_"), (r"m_queue\.m_tasks\.empty\(\)", "empty_")]
+KERNELS += [
+    # condition_variable::wait(lock, pred): the worker sleeps while the predicate is false
+    K("src_wait_pred", S, r"m_condition\.wait\(lock, \[&\]\s*\{\s*return (.*?);\s*\}\);",
+      QA, [("stop_", "bool"), ("empty_", "bool")], "pool", ["C17"]),
+    # the test that makes the worker leave its loop (first statement after the wait, still under the lock)
+    K("src_exit_test", S, r"m_condition\.wait\(lock.*?\);\s*if \((.*?)\)\s*\{\s*NANO_VERIF_EVENT\(::nano::verif::ev_worker_exit",
+      QA, [("stop_", "bool"), ("empty_", "bool")], "pool", ["C17"]),
+    # ~pool_t: the value stored to m_stop under the lock
+    K("src_stop_value", S, r"pool_t::~pool_t\(\)\s*\{.*?m_queue\.m_stop = (.*?);", [], [], "pool", ["C17"]),
+]
